@@ -380,7 +380,7 @@ func watPrinter_printFuncs_body_ins(
 		if x := insLoad.Offset; x != 0 {
 			fmt.Fprintf(w, " offset=%d", x)
 		}
-		if x := insLoad.Align; x != 2 {
+		if x := insLoad.Align; x != 8 {
 			fmt.Fprintf(w, " align=%d", x)
 		}
 		fmt.Fprintln(w)
